@@ -422,6 +422,20 @@ func c06StoreCheck(c C06StoreCase, rec *evid.Rec) error {
 	if _, err := lsys.Store(linking.LinkContext{}, c.LP.Proto(), n); err != nil || committed != 1 {
 		return fmt.Errorf("plain Store failed: %v (commits %d)", err, committed)
 	}
+	// a commit that fails, and a write opener that fails, must make Store fail (never a link for a block that
+	// is not there)
+	lsys.StorageWriteOpener = func(linking.LinkContext) (io.Writer, linking.BlockWriteCommitter, error) {
+		return &bytes.Buffer{}, func(datamodel.Link) error { return errInjected }, nil
+	}
+	if l, err := lsys.Store(linking.LinkContext{}, c.LP.Proto(), n); err == nil {
+		return fmt.Errorf("Store (%s) returned link %v with a nil error although the storage's commit failed", c.LP, l)
+	}
+	lsys.StorageWriteOpener = func(linking.LinkContext) (io.Writer, linking.BlockWriteCommitter, error) {
+		return nil, nil, errInjected
+	}
+	if l, err := lsys.Store(linking.LinkContext{}, c.LP.Proto(), n); err == nil {
+		return fmt.Errorf("Store (%s) returned link %v with a nil error although the storage could not be opened for writing", c.LP, l)
+	}
 	size := full.Len()
 	class := ""
 	var node datamodel.Node = n
@@ -487,7 +501,7 @@ func c06StoreCheck(c C06StoreCase, rec *evid.Rec) error {
 
 var c06Store = evid.Part[C06StoreCase]{
 	Prop: "C06", Name: "storefaults", Quick: 1500, Thorough: 400000,
-	Rule: "Store with a writer that fails after a drawn number of accepted bytes (0..size-1, with or without a short write), or with a node the codec cannot encode (undefined CID, bytes/links for codecs without them, non-bytes for raw) placed after a valid element; a spy committer must never be called and Store must return an error; all cases non-trivial; distinct by (block, prototype, failure point)",
+	Rule: "Store with a writer that fails after a drawn number of accepted bytes (0..size-1, with or without a short write), or with a node the codec cannot encode (undefined CID, bytes/links for codecs without them, non-bytes for raw) placed after a valid element; a spy committer must never be called and Store must return an error; a failing commit and a failing write opener must make Store fail as well; all cases non-trivial; distinct by (block, prototype, failure point)",
 	Gen: func(t *rapid.T) C06StoreCase {
 		lp := drawC06LP(t)
 		c := C06StoreCase{LP: lp, V: drawSmallCodecValue(t, lp.Codec, "v"), FailAt: -1, Poison: rapid.IntRange(0, 2).Draw(t, "poison")}
